@@ -21,7 +21,7 @@ RULE = ('seeded family: byte strings valid or carrying exactly one defect of '
 SHRINK_LISTS = [('frag_cuts',), ('cuts',)]
 EXPECTED_PROBES = ['valid', 'invalid', 'incomplete', 'split_inside_codepoint',
                    'ping_between_fragments', 'compressed', 'as_close_reason',
-                   'stall_failfast_checked']
+                   'stall_failfast_checked', 'compressed_large']
 ASSUMPTIONS = ['the validator state x byte product is explored through the '
                'real receive path with representative prefixes, not by an '
                'exhaustive product over internal states (see DESIGN.md 10)']
@@ -79,7 +79,8 @@ _TRUNC = [b'\xc2', b'\xe1', b'\xe1\x80', b'\xf1', b'\xf1\x80', b'\xf1\x80\x80',
 
 def _payload(rng, want):
     """-> bytes; want in valid|invalid|incomplete (by construction)."""
-    pre = S.rand_text(rng, rng.choice([0, 1, 3, 20, 200])).encode('utf-8')
+    pre = S.rand_text(rng, rng.choice([0, 1, 3, 20, 200, 200, 2500,
+                                       30000])).encode('utf-8')
     post = S.rand_text(rng, rng.choice([0, 1, 10])).encode('utf-8')
     if want == 'valid':
         return pre + post
@@ -217,6 +218,8 @@ def execute(case):
         res.stats['probe:as_close_reason'] += 1
     if case.get('compressed'):
         res.stats['probe:compressed'] += 1
+        if len(payload) > 4096:
+            res.stats['probe:compressed_large'] += 1
     if case.get('ping_between'):
         res.stats['probe:ping_between_fragments'] += 1
     for c in case.get('frag_cuts') or []:
